@@ -23,9 +23,9 @@ from ..consteval import ConstEval
 from ..flow import Sym, fpaths, attr_effects, allfacts
 from ..model import FuncInfo, attr_chain, norm, walk_no_nested
 from ..report import Checker
-from .forward import forward_sites_check
+from .forward import forward_sites_check, opaque_relay_check
 from .c15 import body_or_chunks_check, content_length_check
-from .c03 import chunk_decoder_checks
+from .c03 import chunk_decoder_checks, completion_typestate_check
 
 
 def pipeline_reset_check(ch: Checker, rule: str) -> None:
@@ -73,6 +73,8 @@ def run(ch: Checker) -> None:
     ch.rule('C02.5', '_process_header: key/value are the stripped sides of the first-colon split; add_header stores (key, value) under key.lower()', 2)
     ch.rule('C02.7', 'chunked request bodies are decoded independently of segmentation preconditions (shared with C03): size line searched in held+new bytes, chunk data added '
                      'piece[:missing] / piece[missing:], no unchecked fixed-width skip, no chunk completed without its CRLF', 3)
+    ch.rule('C02.8', 'a request is treated as complete (and forwarded) only when its announced body has arrived: completion typestate of HttpParser (shared with C03.6)', 3)
+    ch.rule('C02.9', 'outside a CONNECT tunnel a client request reaches the upstream unparsed (not rewritten at all) only under an upgrade state that is revoked when the upstream answers anything but 101 (shared with C08.6)', 1)
     ch.rule('C02.6', 'the follow-up (pipeline) request parser is reset to None only where the request is complete', 2)
 
     forward_sites_check(ch, 'C02.1', want_via=True, via_rule='C02.1b')
@@ -230,6 +232,8 @@ def run(ch: Checker) -> None:
     # ---------------- C02.6
     pipeline_reset_check(ch, 'C02.6')
     chunk_decoder_checks(ch, 'C02.7', 'C02.7', 'C02.7')
+    completion_typestate_check(ch, 'C02.8')
+    opaque_relay_check(ch, 'C02.9')
 
 
 def _loop_form_headers(g: Any, p: Any, sym: Sym, hv: Optional[ast.AST], ridx: int) -> Optional[Dict[str, str]]:
